@@ -20,6 +20,25 @@ FP = T.fpF(O, T.KSset(E, O))
 def build(repo):
     vcs, und = [], []
     ci = repo.module("cache").classes["MemoryCache"]
+    # frame: the only state a MemoryCache ever writes is its entry table, and only in __init__ / set (so get/exists/fingerprints remember nothing
+    # between calls); decided on the AST of every method, also when a body has left the supported subset
+    import ast as _ast
+    bad = []
+    for mname, fn in ci.methods.items():
+        for n in _ast.walk(fn):
+            tgt = None
+            if isinstance(n, (_ast.Attribute, _ast.Subscript)) and isinstance(n.ctx, (_ast.Store, _ast.Del)):
+                tgt = _ast.unparse(n)
+            elif isinstance(n, _ast.Call) and isinstance(n.func, _ast.Name) and n.func.id in ("setattr", "delattr"):
+                tgt = _ast.unparse(n)
+            elif isinstance(n, (_ast.Global, _ast.Nonlocal)):
+                tgt = _ast.unparse(n)
+            if tgt is None:
+                continue
+            allowed = (mname == "__init__" and tgt.startswith("self._cache")) or (mname == "set" and tgt.startswith("self._cache["))
+            if not allowed:
+                bad.append(f"{mname}: {tgt}")
+    vcs.append(VC("MemoryCache:sigma:only-the-entry-table-is-written-and-only-by-set", [], z3.BoolVal(not bad), {"law": "sigma", "cls": "MemoryCache", "detail": str(bad)[:160]}))
     evci = repo.module("types").classes["Evaluatable"]
     hyp = T.base_axioms() + T.child_laws(("L1", "L6v"))
 
